@@ -25,6 +25,11 @@ Binding: histories on a lattice are replayed into real Inlet / Outlet objects
          array must be aligned (exactly the Local rows form the real range
          1..num_real_particles), the clauses are judged on the real ranges,
          and non-local rows must not be duplicated, promoted or altered.
+         A further leg puts two inlets and two outlets with their own
+         geometries, spacings and array names (one a suffix / prefix of the
+         other, or unrelated; both listing orders) on one fluid array under
+         ONE manager; every zone has its own trace in its own frame, in which
+         the other zones' updates are calls of kind "other".
          Recorded traces with one corrupted field must
          be rejected (binding self-test, every run).
 """
@@ -181,9 +186,56 @@ def seq_scenario(rng, k, thorough):
     return dict(id='q%d' % k, seq=subs)
 
 
+# array names of two zones of the same kind under one manager: one a suffix /
+# a prefix of the other, or unrelated.  (Every new array name costs one
+# compiled evaluator per family, hence one combination per family.)
+NAME_COMBOS = [(('inlet', 'right_inlet'), ('outlet', 'left_outlet')),
+               (('inlet2', 'inlet'), ('outlet2', 'outlet')),
+               (('inlet_a', 'inlet_b'), ('outlet_a', 'outlet_b'))]
+
+
+def multi_scenario(rng, k, thorough, steps=None):
+    """Two inlets and two outlets ('lanes') with their own flow axis,
+    reference point, zone lengths and spacing on ONE fluid array under ONE
+    manager; both listing orders; each lane is judged in its own frame."""
+    fam = k % 5
+    dim = rng.choice([1, 2, 2, 3])
+    innames, outnames = NAME_COMBOS[fam % 3]
+    lanes = []
+    for j in range(2):
+        for attempt in range(40):
+            s = scenario(rng, fam, thorough, dim=dim, mode='manager',
+                         steps=steps or rng.randint(2, 5 if not thorough else 8))
+            if not lanes or (s['Lin'] != lanes[0]['Lin'] and
+                             s['Lout'] != lanes[0]['Lout'] and
+                             geometry(s) != geometry(lanes[0])):
+                break
+        s['id'] = 'm%d.%d' % (k, j)
+        s['inlet_name'], s['outlet_name'] = innames[j], outnames[j]
+        lanes.append(s)
+    ops = []
+    for op in lanes[0].pop('ops'):
+        if op[0] == 'adv':
+            ops.append(op)
+        else:
+            order = [0, 1] if rng.random() < 0.5 else [1, 0]
+            ops += [[op[0], op[1], j] for j in order]
+    lanes[1].pop('ops')
+    for l in lanes:
+        l['unit_exp'] = lanes[0]['unit_exp']
+    return dict(id='m%d' % k, multi=lanes, family=FAMILIES[fam], dim=dim,
+                unit_exp=lanes[0]['unit_exp'], ghost=lanes[0]['ghost'],
+                fluid_name='fluid', ops=ops,
+                in_order=rng.choice([[0, 1], [1, 0]]),
+                out_order=rng.choice([[0, 1], [1, 0]]))
+
+
 def flatten(scens):
     for s in scens:
-        if 'seq' in s:
+        if 'multi' in s:
+            for t in s['multi']:
+                yield t, s
+        elif 'seq' in s:
             for t in s['seq']:
                 yield t, s
         else:
@@ -204,6 +256,17 @@ def warm_scenarios():
             fluid=[[1, 0, 0]], outlet=[[5, 0, 0], [7, 0, 0]],
             ops=[['adv', [2], [0]], ['in', 2], ['out', 2],
                  ['adv', [2], [0]], ['in', 2], ['out', 2]]))
+    wrng = random.Random(1)
+    for k in range(5):           # the array names of the multi-zone leg
+        m = multi_scenario(wrng, k, False, steps=1)
+        m['id'] = 'warm-multi-%d' % k
+        m['dim'], m['ghost'] = 1, False
+        for j, l in enumerate(m['multi']):
+            l.update(flow=[1, 0, 0], origin=[8.0 * j, 0.0, 0.0], ghosts={},
+                     id='warm-multi-%d.%d' % (k, j), dim=1,
+                     **{n: [[r[0], 0, 0] for r in l[n]]
+                        for n in ('inlet', 'fluid', 'outlet')})
+        out.append(m)
     return out
 
 
@@ -270,7 +333,7 @@ def mutate(rec, rng):
     active = set(rec['g']['active'])
     opts = []
     for k, c in enumerate(calls):
-        if c['stage'] not in active or not c['ok']:
+        if c['stage'] not in active or not c['ok'] or c['kind'] == 'other':
             continue
         b, a = c['before'], c['after']
         entered = a['nreal'][1] > b['nreal'][1]
@@ -362,6 +425,7 @@ def body(chk):
     quick = chk.tier == 'quick'
     sc = chk.scratch
     pool = ThreadPoolExecutor(max_workers=3)
+    problems = []      # self-test / machinery complaints; violations win
     dfut = []
     mfut = []
     if chk.args.replay:
@@ -409,6 +473,8 @@ def body(chk):
         n, nq = (560, 80) if quick else (5500, 600)
         scens = [scenario(rng, k, not quick) for k in range(n)]
         scens += [seq_scenario(rng, k, not quick) for k in range(nq)]
+        scens += [multi_scenario(rng, k, not quick)
+                  for k in range(60 if quick else 400)]
         rng.shuffle(scens)
         # compile the evaluators once (one process per family and mode),
         # so that the parallel phase only loads cached modules
@@ -418,14 +484,19 @@ def body(chk):
             with open(fi, 'w') as fp:
                 fp.write(json.dumps(w) + '\n')
             wjobs.append((fi, os.path.join(sc, 'warm%d.out' % i)))
-        with ThreadPoolExecutor(max_workers=10) as ex:
-            list(ex.map(lambda io: chk.run_py('checks/c16_driver.py', list(io),
-                                              timeout=1500), wjobs))
+        # two phases, so that no two processes compile the same module at
+        # the same time: the multi-zone scenarios re-use 'inlet' / 'outlet'
+        nsingle = sum(1 for w in warm_scenarios() if 'multi' not in w)
+        for part in (wjobs[:nsingle], wjobs[nsingle:]):
+            with ThreadPoolExecutor(max_workers=10) as ex:
+                list(ex.map(lambda io: chk.run_py(
+                    'checks/c16_driver.py', list(io), timeout=1500), part))
         for fi, fo in wjobs:
-            r = json.loads(open(fo).read())
+            r = json.loads(open(fo).readline())
             if 'calls' not in r:
-                raise MachineryError('warm-up scenario failed: %s' % (
-                    json.dumps(r)[:1500]))
+                # not fatal: the same kinds of scenario are judged below
+                problems.append('warm-up scenario failed: %s' % (
+                    json.dumps(r)[:600]))
     phases = {'warmup_s': round(time.time() - chk.t0, 1)}
     t1 = time.time()
     nproc = 14
@@ -460,7 +531,6 @@ def body(chk):
     # Candidates are derived here (one TLC pass for everything) but only
     # those whose base trace turns out to be accepted are judged below, and
     # only when the corruption changed the projected data of its base.
-    problems = []      # self-test / machinery complaints; violations win
     mutants = []
     mrng = random.Random(chk.seed + 99)
     cands = [r for r in rec_by_id.values() if 'calls' in r and
@@ -558,7 +628,13 @@ def body(chk):
         if v['failed'] and not failed:
             problems.append('identities not unique / arrays not aligned '
                             'before a call in %s' % v['id'])
-        if v['drift'] and not v['failed']:
+        offlat = 'multi' in parent[v['id']] and any(
+            sum(1 for q in t['flow'] if q) > 1
+            for t in parent[v['id']]['multi'])
+        # (rows of a diagonal co-managed zone are not lattice points in this
+        # zone's frame: a rounded position on a plane is a tie for P, but the
+        # deterministic M cannot be compared there)
+        if v['drift'] and not v['failed'] and not offlat:
             chk.note_drift('InletOutlet', '%s call %s' % (
                 v['id'], sorted(v['drift'])[0]))
         if not failed:
@@ -630,6 +706,7 @@ def body(chk):
         traces_validated_against_impl=len(verdicts) - len(mutants),
         histories_with_nonlocal_rows=sum(
             1 for t, _ in flatten(scens) if t.get('ghosts')),
+        multi_zone_scenarios=sum(1 for x in scens if 'multi' in x),
         same_name_sequences=sum(1 for x in scens if 'seq' in x),
         histories_in_sequences=sum(len(x['seq']) for x in scens
                                    if 'seq' in x),
